@@ -215,3 +215,20 @@ PROPS["C02"] = {
     "note": "Implicit exceptions that need string-length reasoning (token[0], name[0], pop(0)) are not decided. Determinism of the "
             "non-'lenient' part of the parser is assumed.",
 }
+
+SOURCE_COMMITS += ["10aa832", "c9fb36b", "9394b2a"]  # C06 fixes: base handed to element builder; argument merge order; command-name list copied
+
+PROPS["C06"] = {
+    "claimed": True,
+    "technique": "static analysis: raise-before-write atomicity on the CFG, must-flow of the base format into the validating builder, abstract sibling summaries of the 17 shared queries, checked-names vs inserted-names tables, container aliasing via the effect analysis",
+    "text": (
+        "Decides: (R1) in every add_* of the builder no write of builder state can be followed by a raise (a rejected addition leaves the "
+        "builder unchanged); (R2) the base format given to ArgsFormat(elements, base) reaches the builder that validates the elements; "
+        "(R3) for each of the has_*/get_* queries shared by ArgsFormat and ArgsFormatBuilder the abstract summaries agree - indices "
+        "consulted, base fall-through call and its include_base guard, own/base merge order, exception raised - and every builder field "
+        "is mirrored in the format; (R4) has_X and get_X consult the same indices; (R5) every key an option is inserted under was "
+        "checked against options and command options before insertion, and the three argument-ordering checks and both markers are "
+        "present; (R6) the finished format shares no mutable container with the builder."
+    ),
+    "note": "Agreement of every query answer with 'what the listed elements imply' for every history is value-level and not decided.",
+}
